@@ -307,6 +307,9 @@ func (r Ring) MultByMonomial(p1 Poly, k int, p2 Poly) {
 
 	N := r.N()
 
+	// X^(2N) = 1: reduce k first so that k < -2N does not yield a negative shift.
+	k %= N << 1
+
 	shift := (k + (N << 1)) % (N << 1)
 
 	if shift == 0 {
